@@ -582,9 +582,9 @@ impl<'a> Asm<'a> {
             if env.get(&v).is_some() {
                 continue;
             }
-            if v == "$" {
+            if v == "$" || v == "pc" {
                 match here {
-                    Some(Ok(z)) => env.set("$", RVal::Int(z.clone(), None)),
+                    Some(Ok(z)) => env.set(&v, RVal::Int(z.clone(), None)),
                     Some(Err(Stop::Error(s))) => return Err(Stop::Error(s.clone())),
                     Some(Err(Stop::Unspec(s))) => return Err(Stop::Unspec(s.clone())),
                     None => return unspec("address-dependent"),
@@ -713,13 +713,13 @@ impl<'a> Asm<'a> {
             if env.get(&v).is_some() || BUILTINS.contains(&v.as_str()) {
                 continue;
             }
-            if v == "$" {
+            if v == "$" || v == "pc" {
                 if placeholder {
-                    env.set("$", RVal::Int(Z::from(0), None));
+                    env.set(&v, RVal::Int(Z::from(0), None));
                     continue;
                 }
                 match here {
-                    Some(Ok(z)) => env.set("$", RVal::Int(z.clone(), None)),
+                    Some(Ok(z)) => env.set(&v, RVal::Int(z.clone(), None)),
                     Some(Err(Stop::Error(s))) => return Err(Stop::Error(s.clone())),
                     Some(Err(Stop::Unspec(s))) => return Err(Stop::Unspec(s.clone())),
                     None => return unspec("address-dependent"),
@@ -852,6 +852,22 @@ fn assemble_inner(prog: &Prog, claimed: Option<&[usize]>) -> R<RefOk> {
         }
         defs.push(RDef { name: d.name.clone(), sub: d.sub, rules });
     }
+    for (i, d) in defs.iter().enumerate() {
+        if let Some(n) = &d.name {
+            if defs[..i].iter().any(|o| o.name.as_ref() == Some(n)) {
+                return err("duplicate rule block name");
+            }
+        }
+        for r in &d.rules {
+            for (_, ty) in &r.params {
+                if let PTy::Sub(t) = ty {
+                    if !defs.iter().any(|o| o.name.as_ref() == Some(t)) {
+                        return err("unknown rule block used as a parameter type");
+                    }
+                }
+            }
+        }
+    }
     let mut a = Asm { prog, defs, syms: vec![], by_path: HashMap::new(), ctx_at: vec![], label_val: HashMap::new(), const_val: HashMap::new(), const_busy: vec![], addresses_known: false };
 
     // declarations and scopes
@@ -872,7 +888,7 @@ fn assemble_inner(prog: &Prog, claimed: Option<&[usize]>) -> R<RefOk> {
                 if a.by_path.contains_key(&full) {
                     return err("duplicate symbol");
                 }
-                if BUILTINS.contains(&path[0].as_str()) || path[0] == "$" {
+                if BUILTINS.contains(&path[0].as_str()) || path[0] == "$" || path[0] == "pc" {
                     return unspec("symbol named like a built-in");
                 }
                 ctx = full.clone();
